@@ -107,6 +107,14 @@ Proof.
   - exfalso. apply Hn. split; [eapply dget_In_keys; exact Hg|reflexivity].
 Qed.
 
+(* the search for tainted gates only adds labels *)
+Lemma tainted_incl fuel old outs acc l : In l acc -> In l (tainted fuel old outs acc).
+Proof.
+  revert acc. induction fuel as [|fuel IH]; intros acc H; simpl; [exact H|].
+  destruct (filter _ (gates old)) as [|kg more]; [exact H|].
+  apply IH. simpl. right. apply in_or_app. right. exact H.
+Qed.
+
 (* ---- induction along a checked operands-first order ---- *)
 Definition closed_in (c : circuit) (s : list label) : Prop :=
   forall x g, In x s -> dget (gates c) x = Some g -> forall op, In op (gops g) -> In op s.
@@ -154,7 +162,7 @@ Section Subst.
   Lemma subst_parts :
     frame_order new = true /\
     (forall l, In l leaves -> ~ In l rint /\ ~ In l outs) /\
-    (forall l g, dget (gates old) l = Some g -> ~ In l r -> ~ In l outs ->
+    (forall l g, dget (gates old) l = Some g -> ~ In l rint -> ~ In l outs ->
                  forall o, In o (gops g) -> ~ In o rint) /\
     check_step old new leaves outs care = true.
   Proof.
@@ -188,7 +196,7 @@ Section Subst.
   Lemma not_r l : ~ In l rint -> memb l outs = false -> ~ In l r.
   Proof.
     intros Hl Eo Hr. apply Hl. unfold rint, replaced_internal. apply filter_In.
-    split; [exact Hr|rewrite Eo; reflexivity].
+    split; [apply tainted_incl; exact Hr|rewrite Eo; reflexivity].
   Qed.
 
   Lemma subst_step l g s :
@@ -228,7 +236,7 @@ Section Subst.
       + pose proof (unchanged_gate _ _ _ _ Hg0 Hr) as Hg0'.
         rewrite Hg in Hg0'; injection Hg0' as ->.
         eapply EvalGate with (g := g0); [exact Hg|exact Ht| |exact Hop].
-        pose proof (Husers l g0 Hg0 Hr Hlo) as Hu.
+        pose proof (Husers l g0 Hg0 Hl Hlo) as Hu.
         clear -Hvs Hu Hops Hp. induction Hvs as [|y z ys zs Hyz _ IH']; constructor.
         * apply (Hp y); [apply Hops; left; reflexivity|apply Hu; left; reflexivity|exact Hyz].
         * apply IH'; intros op Hop; [apply Hops|apply Hu]; right; exact Hop.
